@@ -3,6 +3,7 @@
 package main
 
 import (
+	"io"
 	"bufio"
 	"context"
 	"errors"
@@ -278,6 +279,32 @@ func runCase(n int, line string) (res string) {
 				out = append(out, "err")
 			} else {
 				out = append(out, "ok")
+			}
+		case "badcall":
+			// a frame that does not decode: the handler fails, the service ends the connection itself
+			id, _ := strconv.Atoi(f[1])
+			c := clients[id]
+			if c == nil {
+				out = append(out, "none")
+				continue
+			}
+			before := svc.VerifActive()
+			c.SetDeadline(time.Now().Add(500 * time.Millisecond))
+			_, err := c.Write([]byte("{\"method\":5}\x00"))
+			if err == nil {
+				var b [16]byte
+				_, err = c.Read(b[:])
+			}
+			c.SetDeadline(time.Time{})
+			c.Close()
+			delete(clients, id)
+			if err == io.EOF {
+				for t := 0; t < 2000 && svc.VerifActive() >= before && before > 0; t++ {
+					time.Sleep(500 * time.Microsecond)
+				}
+				out = append(out, "ended")
+			} else {
+				out = append(out, "notended")
 			}
 		case "close":
 			id, _ := strconv.Atoi(f[1])
